@@ -1524,6 +1524,12 @@ class Assembler:
             self.rewrites.extend(log)
             rty = ('core::result::Result<%s, RevalParseError>' % ret) if a['fallible'] else ret
             fname = 'action_%s_%d' % (a['nt'], a['k'])
+            if self.demote.get(key):
+                # a grammar action the front end cannot handle is demoted like any other function: signature only, C06 undecided for it
+                self.demoted.append({'key': key, 'mode': 'bare', 'tags': [tag], 'name': fname, 'clauses': [key + '.safety']})
+                self.emit('#[verifier::external_body]\npub fn %s(%s) -> %s { unimplemented!() }\n' % (fname, ', '.join(params), rty))
+                n += 1
+                continue
             first = self.emit('pub fn %s(%s) -> %s' % (fname, ', '.join(params), rty))
             if shapes:
                 self.emit('    requires\n' + ''.join('        %s,\n' % sh for sh in shapes).rstrip('\n'))
